@@ -70,6 +70,7 @@ PROPS = {
         trusted_base=COMMON_TRUSTED + ['state / cleanup / transition functions are abstract callables (any result, any Exception; transition hooks do not raise)'],
         uncovered=['bound on the number of state calls per cycle (termination, A7); init flag seen exactly by the first call of a state;'
                    ' last-start-wins across interleavings with a second thread; status derivation of HasStates (frappy/states.py): bounded / not covered'],
+        bounded=[CB('statemachine-contracts', 'contracts/statemachine.py', 'gens_statemachine')],
     ),
     'C19': dict(
         contract_files=['contracts/discovery.py'],
